@@ -332,6 +332,19 @@ type wire struct {
 	Tg    string  `json:"tg"`
 	Key   bool    `json:"key"`
 	Enc   bool    `json:"enc"`
+	Only  []int   `json:"only_states,omitempty"` // indices into states; empty = all four
+}
+
+func (w wire) wants(i int) bool {
+	if len(w.Only) == 0 {
+		return true
+	}
+	for _, x := range w.Only {
+		if x == i {
+			return true
+		}
+	}
+	return false
 }
 
 type wireResult struct {
@@ -1040,10 +1053,13 @@ var states = [][2]bool{{false, false}, {true, true}, {true, false}, {false, true
 func wireCase(c *core.Ctx, w wire) error {
 	var runs []string
 	var first *wireResult
-	for _, st := range states {
+	for si, st := range states {
 		w.Key, w.Enc = st[0], st[1]
 		if w.Man && w.Key && !w.Enc {
 			continue // a peer that does not toggle crypto cannot use a keyed, non-encrypting stream
+		}
+		if !w.wants(si) {
+			continue
 		}
 		res, err := runWire(w)
 		if err != nil {
@@ -1110,7 +1126,7 @@ func wireCase(c *core.Ctx, w wire) error {
 }
 
 func gen(c *core.Ctx) error {
-	c.Rule("(1) every text of length <= 4 (quick) / 5 (thorough) over the 17-symbol literal alphabet `0 1 7 9 - + . e E x _ \" \\ t T a space`: the real tryInsertLiteral (hook) against try_literal and the real parser.ParseExpr against lex_literal, two-sided; oracle on each text: if the shortcut fires the parser must read the very same literal, and parseAndInsertExpression must store what the parser reads; (2) a directed list (known leads, int64/float64 extremes, every escape, UTF-8 valid and invalid, Unicode blanks and fold look-alikes) and random edits of valid literals; (3) decodeOldClassAdString over all strings of length <= 5 over {a \" \\}; (4) ads from an expression grammar (operators, calls, lists, nested ads, escapes, UTF-8, extremes, booleans in any case) through PutClassAd / PutClassAdWithOptions(IncludePrivate) / PutClassAdRaw (padded texts) plus a trailer on real streams in four states (single- and multi-frame), received by GetClassAd, GetClassAdRaw and SkipClassAdRaw: frames against the model sender, the three model receivers against the real ones, each received attribute against the parser's reading of the sent text by value and type, trailer read after each receiver. non-trivial = text the parser reads as a literal, or wire scenario that round-tripped")
+	c.Rule("(1) every text of length <= 4 (quick) / 5 (thorough) over the 17-symbol literal alphabet `0 1 7 9 - + . e E x _ \" \\ t T a space`: the real tryInsertLiteral (hook) against try_literal and the real parser.ParseExpr against lex_literal, two-sided; oracle on each text: if the shortcut fires the parser must read the very same literal, and parseAndInsertExpression must store what the parser reads; (2) a directed list (known leads, int64/float64 extremes, every escape, UTF-8 valid and invalid, Unicode blanks and fold look-alikes) and random edits of valid literals; (3) decodeOldClassAdString over all strings of length <= 5 over {a \" \\}; (4) ads from an expression grammar (operators, calls, lists, nested ads, escapes, UTF-8, extremes, booleans in any case) through PutClassAd / PutClassAdWithOptions(IncludePrivate) / PutClassAdRaw (padded texts) plus a trailer on real streams in four states (single- and multi-frame), received by GetClassAd, GetClassAdRaw and SkipClassAdRaw: frames against the model sender, the three model receivers against the real ones, each received attribute against the parser's reading of the sent text by value and type, trailer read after each receiver; (5) the FOURTH receiver GetClassAdWithMaxSize: for a catalogue of ads (with/without MyType/TargetType, private fields, PutClassAd / PutClassAdRaw / PutClassAdRawBytes / scripted senders, four stream states, single- and multi-frame) EVERY cap from 0 to total+3 (exhaustive over the caps of each ad) through the real receiver, compared with the model receiver get_ad_capped on the recorded frames; direct oracle: a capped read that reports success must return the ad GetClassAd returns on the same bytes and leave the sentinel next (capped-success-differs), and must succeed once the cap covers the charged total (capped-refuses-fitting); (6) a scripted sender writing the ad through the real Message writer and Stream.WriteFrame in small frames, cut at EVERY position of every segment (one and two cuts), the put_secret field under the real crypto toggle so that its length prefix and payload, and the marker and the secret, sit in different frames; one ad with a > 1 MiB private value through the real sender; four receivers on each, model receivers on the recorded frames. non-trivial = text the parser reads as a literal, or wire scenario that round-tripped")
 	c.Assume("the numeric value of a real literal is strconv.ParseFloat of its text on both paths (checked by bit comparison in the oracle, not modelled)")
 
 	// 1. exhaustive enumeration
@@ -1329,6 +1345,18 @@ func gen(c *core.Ctx) error {
 			return err
 		}
 	}
+	// a private attribute whose rendered text does not fit one frame (> 1 MiB) through the real sender with
+	// IncludePrivate: on the keyed, non-encrypting stream the put_secret field spans several sealed frames
+	// (length prefix alone, then 1 MiB chunks)
+	if err := wireCase(c, wire{Kind: "wire", Opts: 32, Only: []int{2}, My: "Machine", Tg: "Job",
+		Attrs: []wattr{{"Name", `"x"`}, {"ClaimIdList", `"` + strings.Repeat("c", 1048576+4000+c.Rng.Intn(3000)) + `"`}, {"Cpus", "4"}}}); err != nil {
+		return err
+	}
+	c.Count("wire-secret-over-1MiB")
+	// the four receivers on explicit frames: exhaustive cap sweep, scripted small-frame sender
+	if err := genFrames(c); err != nil {
+		return err
+	}
 	c.Sample(map[string]interface{}{"alphabet": alphabet, "max_len": maxLen, "directed": len(directed), "mutated": nMut, "wire_ads": nAds + 5})
 	return nil
 }
@@ -1392,14 +1420,19 @@ func replay(raw json.RawMessage) error {
 		}
 		rec(0)
 		return err
+	case "frames":
+		return replayFrames(raw)
 	case "wire":
 		var w wire
 		if err := json.Unmarshal(raw, &w); err != nil {
 			return err
 		}
-		for _, st := range states {
+		for si, st := range states {
 			w.Key, w.Enc = st[0], st[1]
 			if w.Man && w.Key && !w.Enc {
+				continue
+			}
+			if !w.wants(si) {
 				continue
 			}
 			res, err := runWire(w)
